@@ -641,6 +641,66 @@ fn random_cases(ctx: &Ctx, stats: &mut Stats, rng: &mut Rng, n: u64) {
     }
 }
 
+/// The router keeps the publisher's packet id inside a stored publish and only rewrites the QoS when it
+/// forwards: a QoS 1/2 publish forwarded on a QoS 0 subscription reaches the broker's encoders as
+/// {qos 0, pkid != 0}. That is a packet value the broker produces in ordinary operation, so its encoding
+/// must be a well-formed QoS 0 PUBLISH (no packet id on the wire, declared length == bytes written) that
+/// the client decodes to the same topic and payload.
+fn router_shaped_forwards(ctx: &Ctx, stats: &mut Stats, rng: &mut Rng, n: u64) {
+    use rumqttd::protocol::{v4::V4, v5::V5, Packet as DPacket, Protocol};
+    for i in 0..n {
+        let pkid = rng.range(1, 65535) as u16;
+        let topic = format!("t/{}", rng.below(50));
+        let payload: Vec<u8> = (0..rng.range(0, 40)).map(|_| rng.below(256) as u8).collect();
+        let retain = rng.chance(1, 4);
+        let publish = crate::gen::dpkt::mk_publish(false, 0, pkid, retain, topic.as_bytes(), &payload);
+        for v5 in [false, true] {
+            stats.evaluations += 1;
+            stats.oracle("router-shaped-forward");
+            let mut buf = bytes::BytesMut::new();
+            let p = DPacket::Publish(publish.clone(), None);
+            let written = crate::common::guarded(|| if v5 { V5.write(p, &mut buf) } else { V4.write(p, &mut buf) });
+            let codec = if v5 { "d5" } else { "d4" };
+            let replay = || serde_json::json!({"kind": "router-shaped-forward", "codec": codec, "pkid": pkid, "topic": topic, "payload_len": payload.len(), "retain": retain});
+            let reported = match written {
+                Ok(Ok(n)) => n,
+                Ok(Err(e)) => {
+                    judge(ctx, stats, Record::new(ID, "encode-rejects", format!("{codec} cannot encode a QoS 0 forward that still carries the publisher's packet id {pkid}: {e:?}")).fact("codec", codec).fact("ptype", "Publish").fact("shape", "qos0-with-internal-pkid"), replay);
+                    continue;
+                }
+                Err(p) => {
+                    judge(ctx, stats, Record::new(ID, "panic", format!("{codec} panicked encoding a QoS 0 forward with internal packet id: {}", p.message)).fact("codec", codec).fact("op", "encode").fact("ptype", "Publish"), replay);
+                    continue;
+                }
+            };
+            if reported != buf.len() {
+                judge(ctx, stats, Record::new(ID, "size-reported", format!("{codec} reports {reported} bytes for a QoS 0 forward with internal packet id {pkid} but wrote {}", buf.len())).fact("codec", codec).fact("ptype", "Publish").fact("shape", "qos0-with-internal-pkid"), replay);
+                continue;
+            }
+            // the client must decode exactly this frame (followed by a sentinel PINGRESP) to the same message
+            buf.extend_from_slice(&[0xD0, 0x00]);
+            let ok = if v5 {
+                match crate::common::guarded(|| rumqttc::v5::mqttbytes::v5::Packet::read(&mut buf, None)) {
+                    Ok(Ok(rumqttc::v5::mqttbytes::v5::Packet::Publish(q))) => q.topic == topic.as_bytes() && q.payload == payload && q.pkid == 0 && q.retain == retain && buf.len() == 2,
+                    _ => false,
+                }
+            } else {
+                match crate::common::guarded(|| rumqttc::mqttbytes::v4::Packet::read(&mut buf, 1 << 28)) {
+                    Ok(Ok(rumqttc::mqttbytes::v4::Packet::Publish(q))) => q.topic == topic && q.payload == payload && q.pkid == 0 && q.retain == retain && buf.len() == 2,
+                    _ => false,
+                }
+            };
+            if !ok {
+                judge(ctx, stats, Record::new(ID, "cross-differs", format!("{codec}: a QoS 0 forward with internal packet id {pkid} does not decode in the client to the same QoS 0 message (or the frame boundary is off)")).fact("codec", codec).fact("ptype", "Publish").fact("shape", "qos0-with-internal-pkid"), replay);
+            }
+            if i < 2 {
+                stats.shapes.insert(fnv(format!("router-shaped-{codec}-{i}").as_bytes()));
+            }
+        }
+    }
+    stats.corner("router-shaped-qos0-forward");
+}
+
 fn run(ctx: &Ctx) -> Stats {
     let threads = if ctx.quick() { 1 } else { ctx.threads };
     let per_shard = ctx.size(250_000, 50_000_000 / threads.max(1) as u64);
@@ -649,6 +709,7 @@ fn run(ctx: &Ctx) -> Stats {
         let mut rng = Rng::new(seed);
         if shard == 0 {
             directed(ctx, &mut stats, &mut rng);
+            router_shaped_forwards(ctx, &mut stats, &mut rng, 2_000);
         }
         random_cases(ctx, &mut stats, &mut rng, per_shard);
         stats
